@@ -167,6 +167,95 @@ pub fn mutations(valid: &[u8], mut f: impl FnMut(&[u8], &'static str)) {
     for n in 0..valid.len() {
         f(&valid[..n], "truncation");
     }
+    // Structure-aware: every varint position found by walking the wire structure (tags, varint
+    // values, length prefixes -- nested bodies included when they parse as fields) is replaced by
+    // every boundary varint, so that a length prefix near u64::MAX or a tag near 2^32 is reached
+    // although no single byte change produces it.
+    let mut spots: Vec<(usize, usize)> = vec![];
+    varint_spots(valid, 0, valid.len(), 0, &mut spots);
+    spots.sort();
+    spots.dedup();
+    for (at, used) in spots {
+        for x in boundary_u64s() {
+            let mut m = valid[..at].to_vec();
+            codecmc::wire::put_varint(&mut m, x);
+            m.extend_from_slice(&valid[at + used..]);
+            if m != valid {
+                f(&m, "varint-substitution");
+            }
+        }
+    }
+}
+
+fn boundary_u64s() -> Vec<u64> {
+    let mut v = vec![0u64, 1, 2];
+    for k in [7u32, 14, 21, 28, 31, 32, 35, 42, 49, 56, 63] {
+        let p = 1u64 << k;
+        v.extend_from_slice(&[p - 1, p, p + 1]);
+    }
+    for d in 0..=12u64 {
+        v.push(u64::MAX - d);
+    }
+    v.sort();
+    v.dedup();
+    v
+}
+
+/// Byte ranges (offset, length) of the varints in buf[lo..hi] read as a sequence of fields.
+fn varint_spots(buf: &[u8], lo: usize, hi: usize, depth: usize, out: &mut Vec<(usize, usize)>) -> bool {
+    use codecmc::wire::{RefVarint, ref_varint_decode};
+    let mut at = lo;
+    let mut local = vec![];
+    while at < hi {
+        let RefVarint::Ok { value: tag, used, .. } = ref_varint_decode(&buf[at..hi]) else {
+            return false;
+        };
+        local.push((at, used));
+        at += used;
+        match tag & 7 {
+            0 => {
+                let RefVarint::Ok { used, .. } = ref_varint_decode(&buf[at..hi]) else {
+                    return false;
+                };
+                local.push((at, used));
+                at += used;
+            }
+            1 => {
+                if at + 8 > hi {
+                    return false;
+                }
+                at += 8;
+            }
+            5 => {
+                if at + 4 > hi {
+                    return false;
+                }
+                at += 4;
+            }
+            2 => {
+                let RefVarint::Ok { value: len, used, .. } = ref_varint_decode(&buf[at..hi]) else {
+                    return false;
+                };
+                local.push((at, used));
+                at += used;
+                let len = len as usize;
+                if len > hi - at {
+                    return false;
+                }
+                if depth < 4 && len > 0 {
+                    // a payload that parses as fields is (also) treated as a nested body
+                    let mut inner = vec![];
+                    if varint_spots(buf, at, at + len, depth + 1, &mut inner) {
+                        local.extend(inner);
+                    }
+                }
+                at += len;
+            }
+            _ => return false,
+        }
+    }
+    out.extend(local);
+    true
 }
 
 /// Plain counters for the hot loop (Report::count allocates); flushed once per work item.
